@@ -80,7 +80,7 @@ CLAIMS = {
          "P >= width no reachable non-final state is stuck and the all-inside-run state is reachable; with P < width a deadlock is "
          "reachable (the precondition is needed). tie: S8 on the REAL crate and REAL rayon pools: for every stage width 2..16 x "
          "{user pool of exactly `width` threads, user pool of 16, default pool (one thread per CPU, widths <= CPUs), inside a batch, "
-         "async dispatcher} all systems of the stage must be inside run simultaneously (condvar rendezvous, 5 s limit), over "
+         "async dispatcher, SendDispatcher with its own pool dispatched from the only worker of ANOTHER rayon pool} all systems of the stage must be inside run simultaneously (condvar rendezvous, 5 s limit), over "
          "repeated dispatches; the model's prediction (completes iff threads >= width) is compared, incl. two deadlocking cases",
          "that rayon behaves like the model (work stealing, par_iter splitting) is runtime behaviour of a dependency: exercised, "
          "not proved. A serialising change deadlocks the rendezvous => VIOLATION with the configuration as replay",
@@ -88,7 +88,8 @@ CLAIMS = {
  "C12": ("proof: thread-local list = thread-local registrations in order (all programs); in EVERY trace of the executor model the "
          "thread-local windows come last, after every ordinary system has released, one at a time in registration order, on the "
          "calling thread; sendable <=> no thread-local systems; tie: S1 (tl count/order, try_into_sendable outcome and preserved plan), "
-         "S2 (recorded traces with thread identity, hold mode), S7 (async: thread-local systems only inside wait, on the calling thread, "
+         "S2 (recorded traces with thread identity, hold mode; dispatch, dispatch_par/seq + dispatch_thread_local, and RunNow::run_now / "
+         "setup / dispose on the Dispatcher driven as a system), S7 (async: thread-local systems only inside wait, on the calling thread, "
          "after all others, every wait runs all of them in registration order)",
          "KNOWN FINDING KF1 (listed in known_findings.json): thread-local systems of a builder passed to add_batch run on the pool "
          "worker executing the batch; rayon modelled, not verified",
@@ -151,7 +152,8 @@ CLAIMS = {
          "(any length and nesting): for every injective relabelling phi of resources, every injective renaming rho of systems that "
          "keeps the empty name empty, and access lists that as SETS are the phi-image of the original ones (any permutation, any "
          "duplication), the second program builds the same plan (layout of system objects, thread-local list, max threads, id "
-         "table); determinism = the planner is a function. tie: S1 metamorphic pairs on the REAL builder: the plan of the variant "
+         "table); C19_unreferenced_names_are_irrelevant: registering any set of systems whose names no dependency list mentions as "
+         "anonymous instead (or the reverse) leaves the stages identical; determinism = the planner is a function. tie: S1 metamorphic pairs on the REAL builder: the plan of the variant "
          "is compared with the plan of the base (real vs real), resources realised as static types or dynamic ids under three "
          "mappings, crate built with and without the `parallel` feature (separate processes); both are also compared with the model",
          "TypeId order and hash-map iteration order are shown irrelevant by the invariance of the model + the metamorphic pairs; "
